@@ -374,13 +374,36 @@ pub fn check_stream(stream: &[Y], text: &[u8], st: &mut Stats) -> Result<(), (St
 }
 
 /// Stable, narrow failure signature: route + mismatch kind + (for known shapes) a shape tag.
-pub fn signature(route: &str, m: &Mis, text: &[u8], stream: &[Y]) -> String {
+pub fn signature(route: &str, m: &Mis, text: &[u8], stream: &[Y], r: Option<&gy::RenderedYaml>) -> String {
     let mut sig = format!("C14/{}/{}", route, m.kind);
-    if let Some(tag) = shape_tag(route, m, text, stream) {
+    let tag = shape_tag(route, m, text, stream).or_else(|| r.and_then(|r| shape_from_spans(route, m, r)));
+    if let Some(tag) = tag {
         sig.push('/');
         sig.push_str(tag);
     }
     sig
+}
+
+/// Attribution through the generator's span table (exact for generated text): the first
+/// recorded-finding shape present in the stream whose known wrong answers include this
+/// kind of failure.
+fn shape_from_spans(route: &str, m: &Mis, r: &gy::RenderedYaml) -> Option<&'static str> {
+    let root = m.segs.is_empty() || m.kind == "doc-count";
+    gy::known_shapes(r).into_iter().find(|&s| match (s, route, m.kind.as_str()) {
+        ("tab-after-closing-quote", "build-err", "TabIndentation") => true,
+        ("compact-quoted-key-then-space", "build-err", "UnexpectedCharacter") => true,
+        ("quote-inside-flow-plain", "build-err", "UnexpectedCharacter") => true,
+        ("root-anchor-then-comment", "build-err", "InconsistentIndentation" | "UnexpectedCharacter" | "KeyWithoutValue") => true,
+        ("root-block-scalar-reread", "build-err", "InconsistentIndentation" | "UnexpectedCharacter" | "KeyWithoutValue") => true,
+        ("literal-hash-first-then-indented", "build-err", "InconsistentIndentation") => true,
+        ("empty-value-then-col0-quoted-key", "walk", "null") => matches!(m.actual_str, Some((false, _))),
+        ("empty-node-at-eof-len64", "walk", "null") => m.actual.contains("invalid cursor position"),
+        ("nextline-plain-continuation-not-deeper", "walk", "str-content") => true,
+        ("literal-hash-first-then-indented", "walk", _) => true,
+        ("root-anchor-then-comment", "walk", _) => root,
+        ("root-block-scalar-reread", "walk", _) => root,
+        _ => false,
+    })
 }
 
 /// physical lines (LF / CRLF / CR) of a text
@@ -420,6 +443,14 @@ fn shape_tag(route: &str, m: &Mis, text: &[u8], stream: &[Y]) -> Option<&'static
                 && trim_ws(&text[o..]).first() == Some(&b':')
             {
                 return Some("compact-quoted-key-then-space");
+            }
+        }
+        // (9) a quote character inside a flow-context plain scalar starts a look-ahead that
+        //     runs on to a later quote and `:`
+        if let Some(YamlError::UnexpectedCharacter { context, .. }) = &m.err {
+            let interior_quote = text.windows(2).any(|w| matches!(w[1], b'\'' | b'"') && !matches!(w[0], b' ' | b'\t' | b'\n' | b'\r' | b'[' | b'{' | b',' | b':' | b'\'' | b'"' | b'-'));
+            if context.contains("implicit flow mapping entry") && interior_quote {
+                return Some("quote-inside-flow-plain");
             }
         }
         // (4) a tab directly after the closing quote of a quoted scalar reported as indentation
@@ -524,7 +555,7 @@ fn shape_tag(route: &str, m: &Mis, text: &[u8], stream: &[Y]) -> Option<&'static
                     l1 = &l1[..l1.len() - 1];
                 }
                 let last_tok = l1.rsplit(|&b| b == b' ' || b == b'\t').next().unwrap_or(b"");
-                let opens = last_tok == b"-" || (last_tok.first() == Some(&b'&') && last_tok.len() > 1);
+                let opens = last_tok == b"-" || last_tok.ends_with(b":") || (last_tok.first() == Some(&b'&') && last_tok.len() > 1);
                 opens && ind(w[1]) > ind(w[0]) && w[1][ind(w[1])..].starts_with(first_word)
             });
             if cut && shape {
@@ -675,7 +706,7 @@ fn closes_quoted_scalar(text: &[u8], q: usize) -> bool {
     false
 }
 
-fn trim_ws(b: &[u8]) -> &[u8] {
+pub fn trim_ws(b: &[u8]) -> &[u8] {
     let mut b = b;
     while let Some((&c, r)) = b.split_first() {
         if c == b' ' || c == b'\t' {
@@ -718,7 +749,7 @@ pub fn opts_for(cx: &Ctx) -> YOpts {
     let mut o = YOpts::full();
     // open known findings are excluded by construction in the main search (DESIGN §2.6);
     // `open-finding-shapes` keeps generating them
-    o.avoid = gy::YAvoid { empty_value_before_col0_quoted_key: true, comment_after_root_anchor: true, compact_collection_return_after_deeper: false, tab_after_dash_before_flow_or_quoted: false, pipe_inside_plain: false, block_scalar_on_compact_line: false, compact_quoted_key_space_colon: true, tab_after_closing_quote: true, nextline_plain_continuation_not_deeper: true, literal_hash_first_then_indented: true, root_block_scalar_reread: true, empty_node_at_eof_len64: true };
+    o.avoid = gy::YAvoid { empty_value_before_col0_quoted_key: true, comment_after_root_anchor: true, compact_collection_return_after_deeper: false, tab_after_dash_before_flow_or_quoted: false, opener_after_space_in_plain: false, quote_inside_flow_plain: true, block_scalar_on_compact_line: false, compact_quoted_key_space_colon: true, tab_after_closing_quote: true, nextline_plain_continuation_not_deeper: true, literal_hash_first_then_indented: true, root_block_scalar_reread: true, empty_node_at_eof_len64: true };
     o.max_depth = if cx.tier == Tier::Quick { 40 } else { 100 };
     o
 }
@@ -748,7 +779,7 @@ fn run_case(u: &mut Src, st: &mut Stats, o: &YOpts) -> Result<(), Fail> {
     match check_stream(&stream, &r.text, st) {
         Ok(()) => Ok(()),
         Err((route, m)) => Err(Fail::new(
-            signature(&route, &m, &r.text, &stream),
+            signature(&route, &m, &r.text, &stream, Some(&r)),
             json!({"route": route, "kind": m.kind, "path": m.path, "expected": m.expected, "actual": m.actual, "yaml": show_bytes(&r.text)}),
         )),
     }
@@ -771,7 +802,7 @@ fn replay_input(v: &Value) -> Option<Fail> {
     match catch(|| check_stream(&model, &text, &mut st)) {
         Ok(Ok(())) => None,
         Ok(Err((route, m))) => Some(Fail::new(
-            signature(&route, &m, &text, &model),
+            signature(&route, &m, &text, &model, None),
             json!({"route": route, "kind": m.kind, "path": m.path, "expected": m.expected, "actual": m.actual, "yaml": show_bytes(&text)}),
         )),
         Err((loc, msg)) => Some(Fail::new(format!("panic@{}", panic_sig(&loc)), json!({"panic": msg, "location": loc}))),
